@@ -4,6 +4,7 @@
 -/
 import FordModel.PageTree
 import FordModel.PageTreeSpec
+import FordModel.Lemmas.PageTree
 namespace Ford.PT
 open Ford Ford.Gen.C17
 
@@ -215,5 +216,133 @@ theorem copyListing_rooted (sibs : List Entry) (item : Str) (l : List (PathS × 
     cases h
     simp [listAll]
   · cases h
+
+/-! ## the nodes that the walk builds -/
+
+/-- what the walk guarantees about the copy loop of a node it builds: the loop runs over exactly the items of the
+    page's `copy_subdir`, and the listing attached to an item is rooted at the item's own directory -/
+def CopyOk (n : Node) : Prop :=
+  n.copies.map Prod.fst = n.copySub ∧ ∀ it l, (it, some l) ∈ n.copies → ([it], true) ∈ l
+
+def ResAll (P : Node → Prop) : Res → Prop
+  | .page nd => ∀ n ∈ preorder nd, P n
+  | _ => True
+
+theorem copyListing_fst (sibs : List Entry) (x : Str) : (copyListing sibs x).1 = x := by
+  unfold copyListing
+  split <;> rfl
+
+theorem copyOk_built (sibs : List Entry) (cp : List Str) (loc : PathS) (f s t : Str) (h : List (PathS × Str))
+    (lk : List Link) (fs : List Str) (subs : List Node) :
+    CopyOk (.mk loc f s t h cp (cp.map (copyListing sibs)) lk fs subs) := by
+  constructor
+  · simp only [Node.copies, Node.copySub, List.map_map]
+    conv => rhs; rw [← List.map_id cp]
+    apply List.map_congr_left
+    intro x _
+    exact copyListing_fst sibs x
+  · intro it l hm
+    simp only [Node.copies, List.mem_map] at hm
+    obtain ⟨x, _, hx⟩ := hm
+    have : x = it := by
+      have := copyListing_fst sibs x
+      rw [hx] at this
+      exact this.symm
+    subst this
+    exact copyListing_rooted sibs x l hx
+
+theorem mem_preorderL (l : List Node) (x : Node) : x ∈ preorder.preorderL l → ∃ s ∈ l, x ∈ preorder s := by
+  induction l with
+  | nil => intro h; simp [preorder.preorderL] at h
+  | cons a r ih =>
+    intro h
+    simp only [preorder.preorderL, List.mem_append] at h
+    rcases h with h | h
+    · exact ⟨a, List.mem_cons_self, h⟩
+    · obtain ⟨s, hs, hx⟩ := ih h
+      exact ⟨s, List.mem_cons_of_mem _ hs, hx⟩
+
+theorem mem_preorder_mk (l : PathS) (f s t : Str) (h : List (PathS × Str)) (c : List Str)
+    (cp : List (Str × Option (List (PathS × Bool)))) (lk : List Link) (fs : List Str) (subs : List Node) (x : Node) :
+    x ∈ preorder (.mk l f s t h c cp lk fs subs) → x = .mk l f s t h c cp lk fs subs ∨ ∃ s' ∈ subs, x ∈ preorder s' := by
+  intro hx
+  simp only [preorder, List.mem_cons] at hx
+  rcases hx with hx | hx
+  · exact Or.inl hx
+  · exact Or.inr (mem_preorderL subs x hx)
+
+theorem pageAt_entriesRes {v : Variant} {pc : Option (List Str)} {own : List Str} {hier : List (PathS × Str)}
+    {loc : PathS} {sibs cs : List Entry} {nm : Str} {s : Node}
+    (h : pageAt v pc (entriesRes v own hier loc sibs cs) nm = some s) :
+    ∃ e ∈ cs, entryRes v own hier loc sibs e = .page s := by
+  unfold pageAt at h
+  split at h
+  · cases h
+  · rw [lookupRes_entriesRes] at h
+    cases hf : findEntry nm cs with
+    | none => simp [hf] at h
+    | some e =>
+      simp only [hf, Option.map_some] at h
+      refine ⟨e, (findEntry_some hf).1, ?_⟩
+      cases hr : entryRes v own hier loc sibs e <;> simp only [hr] at h
+      · split at h
+        · cases h
+        · cases h; rfl
+      all_goals cases h
+
+theorem entryRes_copyOk (v : Variant) (e : Entry) :
+    ∀ own hier loc sibs, ResAll CopyOk (entryRes v own hier loc sibs e) := by
+  refine entry_ind_aux (P := fun e => ∀ own hier loc sibs, ResAll CopyOk (entryRes v own hier loc sibs e)) ?_ ?_ e
+  · intro n m own hier loc sibs
+    simp only [entryRes]
+    split
+    · split
+      · trivial
+      · intro x hx
+        rcases mem_preorder_mk _ _ _ _ _ _ _ _ _ _ x hx with rfl | ⟨s', hs', _⟩
+        · exact copyOk_built sibs _ _ _ _ _ _ _ _ _
+        · cases hs'
+    · trivial
+  · intro n cs ih own hier loc sibs
+    simp only [entryRes]
+    split
+    · trivial
+    · rename_i m t hidx
+      rw [walk_eq]
+      split
+      · trivial
+      · rename_i subs files hw
+        split at hw
+        · cases hw
+        cases hw
+        intro x hx
+        rcases mem_preorder_mk _ _ _ _ _ _ _ _ _ _ x hx with rfl | ⟨s', hs', hxs⟩
+        · exact copyOk_built cs _ _ _ _ _ _ _ _ _
+        · obtain ⟨nm, _, hp⟩ := List.mem_filterMap.mp hs'
+          obtain ⟨e', he', hr⟩ := pageAt_entriesRes hp
+          have := ih e' he' m.copySub (hier ++ [(loc ++ [n], t)]) (loc ++ [n]) cs
+          rw [hr] at this
+          exact this x hxs
+
+theorem getPageTree_copyOk (v : Variant) (cs : List Entry) : ResAll CopyOk (getPageTree v cs) := by
+  unfold getPageTree
+  split
+  · trivial
+  · rename_i m t hidx
+    rw [walk_eq]
+    split
+    · trivial
+    · rename_i subs files hw
+      split at hw
+      · cases hw
+      cases hw
+      intro x hx
+      rcases mem_preorder_mk _ _ _ _ _ _ _ _ _ _ x hx with rfl | ⟨s', hs', hxs⟩
+      · exact copyOk_built cs _ _ _ _ _ _ _ _ _
+      · obtain ⟨nm, _, hp⟩ := List.mem_filterMap.mp hs'
+        obtain ⟨e', he', hr⟩ := pageAt_entriesRes hp
+        have := entryRes_copyOk v e' m.copySub [([], t)] [] cs
+        rw [hr] at this
+        exact this x hxs
 
 end Ford.PT
